@@ -450,6 +450,21 @@ def g_rules(p: Project, rep: Report):
                         rep.note(f"G-R3 undecided: reader for bool is {text(h)[:60]}")
                 else:
                     rep.note(f"G-R3 undecided: reader for bool is {text(h)[:60]}")
+            elif t == "str":
+                # a hand-written string reader: what it returns is the stored text, unedited - the writer stores the text as
+                # it is, so a reader that strips quotes / blanks / a prefix returns another value than the one saved
+                par_, body_ = handler_body(rk_fn, h)
+                if body_ is None:
+                    rep.note(f"G-R3 undecided: reader for str is {text(h)[:60]}")
+                else:
+                    edits = [x.func.attr for x in ast.walk(body_) if isinstance(x, ast.Call) and isinstance(x.func, ast.Attribute) and x.func.attr in ("strip", "lstrip", "rstrip", "replace", "lower", "upper", "title", "removeprefix", "removesuffix", "translate", "split", "casefold")] + ["[slice]" for x in ast.walk(body_) if isinstance(x, ast.Subscript) and isinstance(x.slice, ast.Slice)]
+                    plain = isinstance(body_, ast.Call) and isinstance(body_.func, ast.Attribute) and body_.func.attr == "get"
+                    if edits:
+                        rep.check("G-R3", "reader[str]:typed", False, f"string options are read as `{text(body_)[:50]}`: the stored text is edited on the way in ({', '.join(edits)}) while the writer stores it as it is - a URL / ORG / user id that begins or ends with the stripped characters comes back as another value on the next run", gloc(p, rc0))
+                    elif plain:
+                        rep.check("G-R3", "reader[str]:typed", True, "", gloc(p, rc0))
+                    else:
+                        rep.note(f"G-R3 undecided: reader for str is {text(h)[:60]}")
             else:
                 rep.note(f"G-R3 undecided: reader for {t} is {text(h)[:60]}")
     # bool writer polarity
@@ -1115,7 +1130,10 @@ def j_rules(p: Project, rep: Report):
                     if src == "active":
                         rep.check("J-R2", label, True, "", gloc(p, e))
                     elif (f"bool(_acctIsActive({rv}))", True) in item.filters:
-                        rep.check("J-R2", label, True, "", gloc(p, e))
+                        # ... and under nothing MORE than that: another test of the record (SUPTXDL, XFERSRC ...) leaves
+                        # ACTIVE accounts out - the property asks for exactly the ACTIVE ones
+                        extra = [f_ for f_ in item.filters if f_ != (f"bool(_acctIsActive({rv}))", True) and re.search(rf"\b{re.escape(rv)}\b", f_[0])]
+                        rep.check("J-R2", label, not extra, f"{et} is collected only if, besides being ACTIVE, `{extra[0][0][:50]}` is {extra[0][1]}: an ACTIVE account that fails this further test is left out of `--all` (statements AND closing statements)" if extra else "", gloc(p, e))
                     elif item.complex:
                         rep.note(f"J-R2 undecided: {fname} collects {et} under a condition that is not a plain conjunction")
                     else:
@@ -1594,3 +1612,18 @@ def g_r13_nickname_looked_up_as_given(p: Project, rep: Report):
         if isinstance(st, ast.Call) and isinstance(st.func, ast.Attribute) and text(st.func.value) == cl and st.func.attr in ("pop", "update", "setdefault", "clear") and (not st.args or (isinstance(st.args[0], ast.Constant) and st.args[0].value == "server") or st.func.attr in ("update", "clear")):
             rewritten = rewritten or st
     rep.check("G-R13", "merge_config:name-not-reinterpreted-before-the-lookup", rewritten is None, f"`{text(rewritten)[:60]}` changes the command-line layer's 'server' before the configuration is read: a nickname that parses as a URL with a scheme (any name with a colon) is never looked up - its saved url, version, org, fid, user and accounts are ignored and the nickname itself is used as the URL" if rewritten is not None else "", gloc(p, rewritten if rewritten is not None else first))
+
+
+def g_r14_write_always_writes(p: Project, rep: Report):
+    """--write writes"""
+    rep.rule("G-R14", "write_config() writes what mk_server_cfg() left in USERCFG on every path but the dry run: between the call of mk_server_cfg() and USERCFG.write(<file>) there is no return / raise that depends on what the section holds.  Skipping the write when the server's section has no option of its own loses the REMOVALS mk_server_cfg() made (a value saved earlier that now equals the lower sources' stays in the file and keeps outranking the FI database) and the generated CLIENTUID of a first run")
+    wc0 = _fn(p, "write_config")
+    wc = flat(p, OFXGET, wc0, keep=("mk_server_cfg",))
+    mk = [c for c in ast.walk(wc) if isinstance(c, ast.Call) and text(c.func) == "mk_server_cfg"]
+    wr = [c for c in ast.walk(wc) if isinstance(c, ast.Call) and text(c.func) == "USERCFG.write"]
+    if not mk or not wr:
+        rep.note("G-R14 undecided: write_config no longer calls mk_server_cfg() / USERCFG.write()")
+        return
+    lo, hi = min(c.lineno for c in mk), max(c.lineno for c in wr)
+    exits = [x for x in ast.walk(wc) if isinstance(x, (ast.Return, ast.Raise)) and lo < x.lineno < hi]
+    rep.check("G-R14", "write_config:writes-after-mk_server_cfg", not exits, f"`{text(exits[0])[:40]}` (line {exits[0].lineno}) leaves write_config() after mk_server_cfg() has changed USERCFG and before it is written: the changes of this run - options removed because they now equal the lower sources' values, a generated CLIENTUID - never reach the file" if exits else "", gloc(p, exits[0] if exits else wc0))
